@@ -1,6 +1,7 @@
 package props
 
 import (
+	"go/token"
 	"fmt"
 	"go/types"
 	"strings"
@@ -49,6 +50,15 @@ func flowsToReturn(v ssa.Value) bool {
 					return true
 				}
 			case *ssa.Store:
+				// a local that lives in memory (a named result a deferred function
+				// literal reads): the value stored may be the one a later load returns
+				if al, ok := x.Addr.(*ssa.Alloc); ok && x.Val == v && al.Referrers() != nil {
+					for _, r2 := range *al.Referrers() {
+						if u, ok := r2.(*ssa.UnOp); ok && u.Op == token.MUL && walk(u) {
+							return true
+						}
+					}
+				}
 				// element of a varargs array passed to an aggregator
 				if ia, ok := x.Addr.(*ssa.IndexAddr); ok && x.Val == v {
 					if al, ok := ia.X.(*ssa.Alloc); ok {
